@@ -787,7 +787,7 @@ fn judge(c: &Case, d: &Design, bytes: &[u8], stamp: &str) -> Judged {
                     let id = id.to_u16();
                     if c.fea_stat >= 2 && id != 2 {
                         v.push((
-                            format!("stat-elided-fallback-id-changed:{id}"),
+                            "stat-elided-fallback-id-changed".to_string(),
                             format!(
                                 "FEA says `ElidedFallbackNameID 2;`, STAT.elidedFallbackNameID is {id} (string {:?})",
                                 names.win(id)
@@ -1028,10 +1028,9 @@ fn run_case(c: &Case, repeats: usize, stamp: &str) -> CaseOut {
     let first = fcx::compile(&path, &fcx::Opts::default(), None);
     T_COMPILE.fetch_add(t.elapsed().as_micros() as u64, Relaxed);
     let t = std::time::Instant::now();
-    let out2 = run_case_rest(c, &d, &path, first, repeats, stamp, &mut out);
+    run_case_rest(c, &d, &path, first, repeats, stamp, &mut out);
     drop(sc);
     T_REST.fetch_add(t.elapsed().as_micros() as u64, Relaxed);
-    let _ = out2;
     out
 }
 
@@ -1047,8 +1046,24 @@ fn run_case_rest(
     let bytes = match first {
         Ok(b) => b,
         Err(e) => {
-            let msg = format!("{e:?}");
-            let class: String = msg.chars().filter(|ch| !ch.is_ascii_digit()).take(60).collect();
+            let msg = match &e {
+                fcx::Failure::Error(m) => format!("error: {m}"),
+                fcx::Failure::Panic(m) => format!("panic: {m}"),
+            };
+            // class of the message: scratch paths and numbers removed, punctuation folded
+            let mut class = String::new();
+            for w in msg.split_whitespace().filter(|w| !w.contains("/dev/shm") && !w.contains("/tmp")) {
+                let w: String = w.chars().filter(|ch| ch.is_ascii_alphabetic()).collect();
+                if !w.is_empty() {
+                    if !class.is_empty() {
+                        class.push('-');
+                    }
+                    class.push_str(&w);
+                }
+                if class.len() > 70 {
+                    break;
+                }
+            }
             out.viol.push((format!("compile-failed:{class}"), msg));
             return;
         }
@@ -1213,7 +1228,7 @@ fn main() {
     if stride > 1 {
         cases = cases.into_iter().step_by(stride).collect();
     }
-    let repeats = tier.pick(2, 3);
+    let repeats = tier.pick(1, 2);
     let threads = vcore::ncores();
     eprintln!("[C18] {} cases, {} threads", cases.len(), threads);
     let outs = vcore::par_for(cases.len(), threads, |i| run_case(&cases[i], repeats, &stamp));
